@@ -34,7 +34,7 @@ ASSUMPTIONS = [
   'pop is only generated when no selected Variable is shared between paths or sits directly inside a list/dict/tuple (behaviour the property does not pin down)',
   'there is no scheduler or I/O behind this property; the simulator contributes long aliasing/edit histories against a model, gc instants and identity checks',
 ]
-PROBES = ['shared_variable', 'shared_or_cyclic_node', 'self_reference', 'pytree_container', 'long_list_container', 'cycle_in_graph', 'split_nonexhaustive_raises', 'merge_shuffled', 'update_foreign', 'pop_done', 'graphdef_differs_after_edit', 'gc_event', 'metadata_edited_in_place', 'snapshot_restored', 'container_root', 'state_routes_checked']
+PROBES = ['shared_variable', 'shared_or_cyclic_node', 'self_reference', 'pytree_container', 'long_list_container', 'cycle_in_graph', 'split_nonexhaustive_raises', 'merge_shuffled', 'update_foreign', 'pop_done', 'graphdef_differs_after_edit', 'gc_event', 'metadata_edited_in_place', 'snapshot_restored', 'container_root', 'state_routes_checked', 'failed_call_then_continue']
 
 
 def setup_worker(w, tier):
@@ -72,8 +72,10 @@ def generate(rs, tier):
       api = dict(op='pop', root=root, filters=[W.gen_filter(g) for _ in range(g.choice([1, 1, 2]))])
     elif r < 0.88:
       api = dict(op='clone', root=root, wrap=g.choice([None, None, 'list', 'dict']), root2=g.randrange(64))
-    elif r < 0.95:
+    elif r < 0.93:
       api = dict(op='iter_graph', root=root)
+    elif r < 0.96:
+      api = dict(op='failed_call', root=root, api=g.choice(['split', 'state', 'clone', 'graphdef']))
     else:
       api = dict(op='gc')
     pos = g.randrange(max(1, len(ops) // 2), len(ops) + 1)
@@ -183,6 +185,30 @@ def execute(plan):
           res.probe('container_root')
         if has_cycle(m):
           res.probe('cycle_in_graph')
+        if k == 'failed_call':
+          # the injected fault of this world: an API call that raises in the middle of its traversal (a dict attribute
+          # whose keys cannot be ordered, reached after other objects were visited); the caller repairs the graph and
+          # goes on - every later call must behave as if the failed one had never happened
+          if not isinstance(r, nnx.Object):
+            continue
+          vars(r)['zz_bad'] = {1: 0, 'y': 0}
+          raised = False
+          try:
+            {'split': nnx.split, 'state': nnx.state, 'clone': nnx.clone, 'graphdef': nnx.graphdef}[op['api']](r)
+          except Exception:  # noqa: BLE001
+            raised = True
+          finally:
+            del vars(r)['zz_bad']
+          if raised:
+            res.fault('raise_in_traversal')
+            res.probe('failed_call_then_continue')
+          gd, st = nnx.split(r)
+          back = nnx.merge(gd, st)
+          cb, cm = W.canon_real(back), W.canon_model(m)
+          if cb != cm:
+            raise Violation('merge-not-isomorphic', f'{where}: after a {op["api"]} call that raised, merge(split(g)) = {W._short(cb)} but g = {W._short(cm)}')
+          log.add(oi, k, raised)
+          continue
         if k == 'split_merge':
           fs = op['filters']
           real_fs = [W.filter_real(f) for f in fs]
@@ -233,9 +259,20 @@ def execute(plan):
                 raise Violation('state-partition-wrong', f'{where}: {name}(filters) partitions the Variables differently from nnx.state(node, filters)')
             if flat(full.filter(rf[0])) != flat(nnx.state(r, rf[0])):
               raise Violation('state-partition-wrong', f'{where}: State.filter(f) differs from nnx.state(node, f)')
+            parts_before = [flat(a) for a in direct]
             for name, merged in (('State.merge', nnx.State.merge(*direct)), ('nnx.merge_state', nnx.merge_state(*reversed(direct)))):
               if sorted(flat(merged)) != sorted(flat(full)):
                 raise Violation('state-partition-wrong', f'{where}: {name} of the partition does not give back the full state')
+              if [flat(a) for a in direct] != parts_before:
+                raise Violation('state-partition-wrong', f'{where}: {name} changed the states it was given (the caller goes on using them)')
+            if len(direct) > 1:
+              # the partition is used once (update with all parts), then again
+              nnx.update(r, *direct)
+              if [flat(a) for a in direct] != parts_before:
+                raise Violation('state-partition-wrong', f'{where}: nnx.update(node, *states) changed the states it was given')
+              again_m = nnx.merge(nnx.graphdef(r), *direct)
+              if W.canon_real(again_m) != W.canon_model(m):
+                raise Violation('merge-not-isomorphic', f'{where}: merging graphdef + the same partition a second time does not rebuild the graph')
             pure = full.to_pure_dict()
             again = nnx.state(r)
             again.replace_by_pure_dict(pure)
